@@ -29,7 +29,7 @@ for line in open(res):
         'needs': am.get('needs') or am.get('trigger'),
         'files': am.get('files'),
         'author': 'independent sub-agent given only the property text and a scratch worktree (round %d)' % rnd,
-        'author_ran': am.get('ran'),
+        'author_ran': am.get('ran') or am.get('author_ran'),
         'confirmed_by_me': {
             'how': 'tools/seed_trial.py in a scratch worktree at /repo HEAD',
             'demo_passes_without_change': d['demo_passes_without'],
